@@ -166,6 +166,36 @@ pub fn new_key() -> Box<dyn SigningKey> {
 /// Loads the zone into a real `InMemoryZoneHandler`, signs it (NSEC or NSEC3 chain generated by
 /// hickory-dns) and puts it into a `Catalog`.
 pub fn build_signed_zone(spec: &ZoneSpec, nx: NxProofKind) -> SignedZone {
+    build_signed_zone_with(spec, nx, false)
+}
+
+/// Where a (non-wildcard) alias of the zone points if aliases are to stay inside the zone: an
+/// authoritative host of the zone (owns an A RRset, is no wildcard, does not sit at or below a
+/// delegation).  Which one -- fewer, as many or more labels than the alias -- depends on the alias
+/// name only.  `None`: no such host, the alias points out of the zone.
+pub fn in_zone_cname_target(spec: &ZoneSpec, alias: &Name) -> Option<Name> {
+    if alias.is_wildcard() {
+        return None;
+    }
+    let cuts: Vec<&Name> = spec.owners.iter().filter(|(_, ty)| ty.iter().any(|t| t == "NS")).map(|(n, _)| n).collect();
+    let mut cands: Vec<&Name> = spec
+        .owners
+        .iter()
+        .filter(|(n, ty)| n != alias && !n.is_wildcard() && ty.iter().any(|t| t == "A") && !ty.iter().any(|t| t == "CNAME"))
+        .filter(|(n, _)| !cuts.iter().any(|c| c.zone_of(n)))
+        .map(|(n, _)| n)
+        .collect();
+    if cands.is_empty() {
+        return None;
+    }
+    cands.sort();
+    let h: usize = alias.iter().flat_map(|l| l.iter()).map(|b| *b as usize).sum();
+    Some(cands[h % cands.len()].clone())
+}
+
+/// As `build_signed_zone`; with `in_zone_cnames` a CNAME of the zone points at a host of the same
+/// zone (see `in_zone_cname_target`) instead of at `target.invalid.`.
+pub fn build_signed_zone_with(spec: &ZoneSpec, nx: NxProofKind, in_zone_cnames: bool) -> SignedZone {
     const SERIAL: u32 = 1000;
     const TTL: u32 = 3600;
     let origin = spec.apex.clone();
@@ -194,7 +224,11 @@ pub fn build_signed_zone(spec: &ZoneSpec, nx: NxProofKind) -> SignedZone {
                 continue;
             }
             let rt = rtype_from_str(t);
-            let rec = Record::from_rdata(owner.clone(), TTL, rdata_for(rt));
+            let rdata = match (rt, in_zone_cnames.then(|| in_zone_cname_target(spec, owner)).flatten()) {
+                (RecordType::CNAME, Some(target)) => RData::CNAME(CNAME(target)),
+                _ => rdata_for(rt),
+            };
+            let rec = Record::from_rdata(owner.clone(), TTL, rdata);
             let ok = handler.upsert_mut(rec, SERIAL);
             assert!(ok, "upsert {owner} {t}");
         }
@@ -283,6 +317,30 @@ impl DnsHandle for CatalogHandle {
     }
 }
 
+/// Fault layer between the validator and the honest server: the response to one question is
+/// replaced by a prepared message, everything else (DNSKEY lookups ...) is answered by the catalog.
+#[derive(Clone)]
+pub struct TamperHandle {
+    pub inner: CatalogHandle,
+    pub query: Query,
+    pub forged: Arc<Message>,
+}
+
+impl DnsHandle for TamperHandle {
+    type Response = Pin<Box<dyn Stream<Item = Result<DnsResponse, NetError>> + Send>>;
+    type Runtime = TokioRuntimeProvider;
+
+    fn send(&self, request: DnsRequest) -> Self::Response {
+        let hit = request.queries.first().is_some_and(|q| q.name == self.query.name && q.query_type == self.query.query_type);
+        if !hit {
+            return self.inner.send(request);
+        }
+        let mut msg = (*self.forged).clone();
+        msg.metadata.id = request.metadata.id;
+        Box::pin(stream::once(async move { Ok(DnsResponse::from_message(msg)?) }))
+    }
+}
+
 // ---------------------------------------------------------------------------------------
 // projection of a response to the abstract alphabet
 
@@ -293,6 +351,9 @@ pub struct Projected {
     /// closest encloser named by the answer's RRSIG Labels field (kind = "wild")
     pub ce: Option<Name>,
     pub soa: Option<Name>,
+    /// some RRset of the answer section (at the query name or further down an alias chain) was
+    /// expanded from a wildcard: RRSIG Labels < owner labels
+    pub answer_expanded: bool,
 }
 
 pub fn suffix(n: &Name, k: usize) -> Name {
@@ -344,7 +405,11 @@ pub fn project(resp: &DnsResponse, qname: &Name) -> Projected {
     } else {
         "other"
     };
-    Projected { rcode, kind, ce, soa }
+    let answer_expanded = resp.answers.iter().any(|r| match &r.data {
+        RData::DNSSEC(DNSSECRData::RRSIG(sig)) => (sig.input().num_labels as usize) < raw_labels(&r.name) - r.name.is_wildcard() as usize,
+        _ => false,
+    });
+    Projected { rcode, kind, ce, soa, answer_expanded }
 }
 
 pub fn zone_owner_types(records: &BTreeMap<Name, Vec<String>>) -> Value {
